@@ -575,6 +575,21 @@ fn plan_files(rng: &mut Rng, seeds: &BTreeMap<String, Vec<u8>>, lays: &BTreeMap<
         v.push(FileCase { base: "rich".into(), ops: vec![Op::Trunc(HEADER_SIZE), Op::Fill(0xFF, 3000)], label: "header+ff".into() });
         let _ = r;
     }
+    for sd in ["rich", "empty", "pending1"] {
+        if !seeds.contains_key(sd) { continue; }
+        for (off, name) in [(8usize, "footer_offset"), (16, "wal_offset"), (24, "wal_size"), (32, "wal_checkpoint_pos"), (40, "wal_sequence")] {
+            for val in [u64::MAX, 0u64] {
+                v.push(FileCase { base: sd.to_string(), ops: vec![Op::Set(off, val.to_le_bytes().to_vec())], label: format!("len:hdr.{name}") });
+            }
+        }
+    }
+    for sd in ["pending2", "rich"] {
+        if let Some(l) = lays.get(sd) {
+            if let Some(f) = l.fields.iter().filter(|f| f.name.starts_with("wal.r") && f.name.ends_with(".seq")).last() {
+                v.push(FileCase { base: sd.to_string(), ops: vec![Op::Set(f.start, u64::MAX.to_le_bytes().to_vec())], label: format!("len:{}", f.name) });
+            }
+        }
+    }
     let names: Vec<String> = lays.keys().cloned().collect();
     // truncation at every field boundary of every seed (±1 on a sample)
     for s in &names {
@@ -762,6 +777,21 @@ fn direct_decoder(dec: &str, a: &[String]) -> String {
                 Ok(Err(MemvidError::Io { .. })) => "err io".into(),
                 Ok(Err(MemvidError::InvalidHeader { .. })) => "err wal_size".into(),
                 Ok(Err(e)) => format!("err other:{}", errkind(&e)),
+            }
+        }
+        "walappend" => {
+            // a = [offset, size, checkpoint sequence, payload length, file hex]: writable open, then one append
+            let p = scratch_file(&hx(a, 4));
+            let hdr = header_of(0, u(a, 0), u(a, 1), 0, u(a, 2));
+            let r = std::fs::OpenOptions::new().read(true).write(true).open(&p).map_err(|e| e.to_string())
+                .map(|f| EmbeddedWal::open(&f, &hdr).and_then(|mut w| { w.set_skip_sync(true); w.append_entry(&vec![0x5Au8; u(a, 3) as usize]) }));
+            let _ = std::fs::remove_file(&p);
+            match r {
+                Err(e) => format!("err scratch:{e}"),
+                Ok(Ok(seq)) => format!("ok {seq}"),
+                Ok(Err(MemvidError::CheckpointFailed { reason })) => format!("err {}", reason_kind(&reason, &[("too large", "too_large"), ("too small", "too_small"),
+                    ("region full", "full"), ("sequence exhausted", "sequence")], "other")),
+                Ok(Err(e)) => format!("err open:{}", errkind(&e)),
             }
         }
         "ti" => match time_index_read(&mut Cursor::new(hx(a, 3)), u(a, 0), u(a, 1)) {
@@ -1202,6 +1232,42 @@ fn gen_wal(cx: &mut Cx, rng: &mut Rng, n: usize) {
     }
 }
 
+/// EmbeddedWal::append_entry after a writable open: sequence numbers up to u64::MAX (header field or last record)
+fn gen_wal_append(cx: &mut Cx, rng: &mut Rng, n: usize) {
+    for i in 0..n {
+        let ck = if i == 0 { u64::MAX } else { *rng.pick(&[0u64, 3, u64::MAX - 1, u64::MAX, u64::MAX, 1 << 63]) };
+        let mut region = Vec::new();
+        let nrec = if i == 0 { 0 } else { rng.usize(0, 2) };
+        for k in 0..nrec {
+            let seq = if k + 1 == nrec && rng.chance(1, 2) { *rng.pick(&[u64::MAX, u64::MAX - 1, 9]) } else { (k as u64 + 1).wrapping_add(if ck < 100 { ck } else { 0 }) };
+            let p = rb(rng, 1, 30);
+            region.extend(wal_record(seq, &p));
+        }
+        let slack = *rng.pick(&[48usize, 60, 100, 200, 1000]);
+        region.extend(vec![0u8; slack]);
+        let size = region.len() as u64;
+        let offset = *rng.pick(&[0u64, 16]);
+        let mut file = vec![0xEEu8; offset as usize];
+        file.extend_from_slice(&region);
+        let plen = *rng.pick(&[1u64, 10, 52, 100, 152, 5000]);
+        // the model's state after the open
+        let opened = cx.ask(&format!("wal {offset} {size} {ck} 0 {}", hexw(&file)));
+        let model = match opened.as_deref() {
+            Some(o) if o.starts_with("ok ") => {
+                let w: Vec<&str> = o.split(' ').collect();
+                cx.ask(&format!("walappend 0 {size} {} {} {} {plen}", w[3], w[4], w[2]))
+            }
+            Some(_) => continue,
+            None => None,
+        };
+        let args = vec![s(offset), s(size), s(ck), s(plen), hexw(&file)];
+        let risky = model.is_none() && (ck == u64::MAX);
+        let in_child = risky || model.as_deref().map(is_crash).unwrap_or(false);
+        let imp = if in_child { let t = cx.tmpdir(); run_dec_child("walappend", &args, &t) } else { direct_guarded("walappend", &args) };
+        finish_case(cx, "walappend", &args, if i == 0 { "witness-header-sequence-u64max" } else { "walappend" }, model, imp);
+    }
+}
+
 fn gen_ti(cx: &mut Cx, rng: &mut Rng, n: usize) {
     let mem_limit: u64 = 1 << 47; // larger requests than the address space are always refused
     for _ in 0..n {
@@ -1560,7 +1626,7 @@ fn main() {
     let mut drv_holder = if args.driver.as_os_str() == "none" { None } else { Some(Driver::spawn(&args.driver).expect("spawn driver")) };
     let mut sum = Summary::new("C22", &args,
         "Part A: generated byte strings / field values per modelled decoder (header, verify_toc_prefix, read_toc, scan_range_for_toc, \
-         locate_footer_window, EmbeddedWal::open, time-index read_track, read_sketch_track, memories/mesh header, ensure_non_overlapping_frames, \
+         locate_footer_window, EmbeddedWal::open, EmbeddedWal::append_entry, time-index read_track, read_sketch_track, memories/mesh header, ensure_non_overlapping_frames, \
          compute_data_end, validate_frame_bounds, read_range, timeline, doctor planner, BlobReader::seek), real code vs drv_c22, class ok|err kind|panic. \
          Part B: seeds rich/small/empty/pending1/pending2 built through the API; mutations = bit flips in named fields, boundary values in length/offset \
          fields (header, WAL records, footer, track headers, TOC prefix), hash-consistent TOC edits, truncation at every field boundary (+-1), splices, \
@@ -1597,7 +1663,7 @@ fn main() {
             match dec.as_str() {
                 "planner" => gen_planner(&mut cx, &paths),
                 "blob" => { let mut r = Rng::new(1); gen_blob(&mut cx, &mut r, &seeds["rich"], &lays["rich"]); }
-                "frames" | "dataend" | "bounds" | "range" | "timeline" | "scan" => {
+                "frames" | "dataend" | "bounds" | "range" | "timeline" | "scan" | "walappend" => {
                     println!("replay of `{dec}` cases regenerates the whole family (they need the seed's handle / TOC)");
                     let mut r = Rng::new(args.seed);
                     let real_toc = seeds["rich"][lays["rich"].toc_off..lays["rich"].len - FOOTER_SIZE].to_vec();
@@ -1605,6 +1671,7 @@ fn main() {
                         "frames" | "dataend" => gen_frames_dataend(&mut cx, &mut r, 200, &lays["rich"].toc),
                         "bounds" | "range" => gen_handle(&mut cx, &mut r, 100, &paths["rich"]),
                         "timeline" => gen_timeline(&mut cx, &mut r, 12, &seeds["small"], &lays["small"]),
+                        "walappend" => gen_wal_append(&mut cx, &mut r, 30),
                         _ => gen_scan(&mut cx, &mut r, 120, &real_toc),
                     }
                 }
@@ -1644,6 +1711,7 @@ fn main() {
         gen_scan(&mut cx, &mut rng.fork(), 120 * scale, &real_toc);
         gen_window(&mut cx, &mut rng.fork(), 150 * scale);
         gen_wal(&mut cx, &mut rng.fork(), 400 * scale);
+        gen_wal_append(&mut cx, &mut rng.fork(), 120 * scale);
         gen_ti(&mut cx, &mut rng.fork(), 300 * scale);
         gen_sk(&mut cx, &mut rng.fork(), 300 * scale);
         gen_frames_dataend(&mut cx, &mut rng.fork(), 400 * scale, &rich.toc);
@@ -1691,7 +1759,7 @@ fn main() {
     }
     sum.expect_branches(&["api.open.ok", "api.open.error", "api.ro.ok", "api.ro.error", "api.verify.ok", "api.verify.error", "api.plan.ok", "api.doctor.ok",
         "api.open.search.ok", "api.ro.timeline.ok", "api.open.blob.ok", "file-opens-after-mutation", "mut.flip", "mut.len", "mut.trunc", "mut.splice", "mut.random", "mut.tocedit", "mut.track",
-        "scan-candidate-reaches-decode", "dec.wal.ok-", "dec.wal.err-corrupt", "dec.wal.err-io", "dec.ti.ok-", "dec.sk.ok-small", "dec.readtoc.ok", "dec.readtoc.err-toc_hash_mismatch",
+        "scan-candidate-reaches-decode", "dec.wal.ok-", "dec.walappend.ok-", "dec.walappend.err-full", "dec.wal.err-corrupt", "dec.wal.err-io", "dec.ti.ok-", "dec.sk.ok-small", "dec.readtoc.ok", "dec.readtoc.err-toc_hash_mismatch",
         "dec.frames.err-overlap", "dec.frames.err-overflow", "dec.bounds.ok", "dec.timeline.ok-", "dec.hdr.ok-"]);
     if let Some(d) = drv_holder.as_ref() { sum.model_requests = d.requests; }
     let _ = find_last_valid_footer(&[]);
